@@ -132,8 +132,11 @@ func build(p *prop, work string, tier string) (bins map[string]string, ok bool) 
 		args []string
 	}
 	targets := []target{{"props", []string{"test", "-c", "-tags", "verif", "-o", filepath.Join(work, "props.test"), "./props"}}}
-	needRace, needTool, needFuzz := false, false, false
+	needRace, needTool, needFuzz, need386 := false, false, false, false
 	for i := range p.jobs {
+		if p.jobs[i].arch == "386" && (tier == "thorough" || !p.jobs[i].thoroughOnly) {
+			need386 = true
+		}
 		if p.jobs[i].fuzz != "" && tier == "thorough" {
 			needFuzz = true
 		}
@@ -150,6 +153,10 @@ func build(p *prop, work string, tier string) (bins map[string]string, ok bool) 
 	if needFuzz {
 		// -fuzz at build time adds the coverage instrumentation native fuzzing needs
 		targets = append(targets, target{"fuzz", []string{"test", "-c", "-fuzz=Fuzz", "-tags", "verif", "-o", filepath.Join(work, "props.fuzz.test"), "./props"}})
+	}
+	if need386 {
+		// a 32-bit build of the same tests: int is 32 bits wide there (properties quantify over "any int")
+		targets = append(targets, target{"props386", []string{"test", "-c", "-tags", "verif", "-o", filepath.Join(work, "props.386.test"), "./props"}})
 	}
 	if needTool {
 		targets = append(targets, target{"tool", []string{"build", "-tags", "verif", "-o", filepath.Join(work, "update-wordlist"), "github.com/islishude/bip39/update-wordlist"}})
@@ -179,6 +186,9 @@ func build(p *prop, work string, tier string) (bins map[string]string, ok bool) 
 			cmd := exec.Command("go", t.args...)
 			cmd.Dir = filepath.Join(verifRoot, "harness")
 			cmd.Env = goEnv()
+			if t.key == "props386" {
+				cmd.Env = append(cmd.Env, "GOARCH=386")
+			}
 			out, err := cmd.CombinedOutput()
 			mu.Lock()
 			defer mu.Unlock()
@@ -192,6 +202,8 @@ func build(p *prop, work string, tier string) (bins map[string]string, ok bool) 
 				bins[t.key] = filepath.Join(work, "update-wordlist")
 			} else if t.key == "props" {
 				bins[t.key] = filepath.Join(work, "props.test")
+			} else if t.key == "props386" {
+				bins[t.key] = filepath.Join(work, "props.386.test")
 			} else if t.key == "fuzz" {
 				bins[t.key] = filepath.Join(work, "props.fuzz.test")
 			} else {
@@ -210,7 +222,7 @@ func runAll(tier string) int {
 	}
 	work := mkWork("ALL")
 	defer os.RemoveAll(work)
-	union := &prop{id: "ALL", jobs: []job{{race: true, tool: true, fuzz: "x"}}}
+	union := &prop{id: "ALL", jobs: []job{{race: true, tool: true, fuzz: "x", arch: "386"}}}
 	bins, ok := build(union, work, tier)
 	if !ok {
 		return 2
@@ -468,6 +480,9 @@ func runUnit(ctx context.Context, p *prop, j *job, shard, ti int, tier string, s
 	dir := filepath.Join(work, fmt.Sprintf("%s-j%d-s%d", p.id, jobIdx, shard))
 	os.MkdirAll(dir, 0o755)
 	bin := bins["props"] // the parent is never the race build; children are (VERIF_SELF_RACE)
+	if j.arch == "386" {
+		bin = bins["props386"]
+	}
 	nshards := j.shards[ti]
 	if nshards <= 0 {
 		nshards = 1
